@@ -195,7 +195,7 @@ def inline_const_locals(s):
                 bad = (re.search(r"(?<![\w.:>\]])%s\s*=(?!=)" % rq, scope) or re.search(r"\b%s\s*\.\s*%s\b" % (rq, _RESIZERS), scope)
                        or re.search(r"[(,]\s*%s\s*[,)]" % rq, scope))
             else:
-                bad = re.search(r"\*this\s*=(?!=)", scope) or re.search(r"(?<![\w.:>])%s\s*\(" % _RESIZERS, scope) or re.search(r"[(,]\s*\*this\s*[,)]", scope)
+                bad = re.search(r"\*this\s*=(?!=)", scope) or re.search(r"(?<![\w.:>])%s\s*\(" % _RESIZERS, scope) or re.search(r"[(,]\s*\*this\s*[,)](?!\s*\[)", scope)
             ok = not bad
         elif lanes_expr:
             ok = True      # the lane count is a property of the type
@@ -965,6 +965,20 @@ def _body_after(ns, sig_re, what):
     return ns[start + 1:e]
 
 
+def _order_independent_conds(body):
+    """two adjacent statements `x = Simd::cond(m, ..); y = Simd::cond(m, ..);` under the same mask that do not read each other's target
+    (and do not assign the mask) commute; canonical order: the one selecting a `simd_index_type(..)` comes second"""
+    rx = re.compile(r"(?P<a>(?P<ta>%s)=Simd::cond\((?P<m>%s),(?P<aa>[^;]*)\);)(?P<b>(?P<tb>%s)=Simd::cond\((?P=m),(?P<ba>[^;]*)\);)" % (_ID, _ID, _ID))
+    def repl(m):
+        ta, tb, mk = m.group("ta"), m.group("tb"), m.group("m")
+        ids_a, ids_b = set(re.findall(_ID, m.group("aa"))), set(re.findall(_ID, m.group("ba")))
+        independent = ta != tb and mk not in (ta, tb) and ta not in ids_b and tb not in ids_a
+        if independent and "simd_index_type(" in m.group("aa") and "simd_index_type(" not in m.group("ba"):
+            return m.group("b") + m.group("a")
+        return m.group(0)
+    return rx.sub(repl, body)
+
+
 def translate_lu(src):
     """densematrix.hh: everything in luDecomposition() / ElimDet / ElimPivot / Elim<V> / the LU branches of determinant(), solve(),
     invert() where a mask, a mask reduction, a `cond` or a loop bound decides what happens in a lane: the bounds and the comparison of
@@ -1010,7 +1024,7 @@ def translate_lu(src):
           r"\}?"
           r"func\((?P=f),(?P=k2),(?P=i)\);"
           r"\}\}")
-    m = re.fullmatch(rx, body)
+    m = re.fullmatch(rx, _order_independent_conds(body))
     if not m:
         raise TranslateError("densematrix.hh: luDecomposition outside the grammar (statement order, a new statement, another reduction "
                              "site or another form of the arithmetic)")
